@@ -1,5 +1,5 @@
 (* Extraction of the syntax-layer model (lexer, escape, quoting, ...) -- ExtrOcamlBasic only. *)
-From OV Require Import Base.Strs Syn.Escape Syn.Quote Syn.Ast Syn.Emitter Lex.Lexer Syn.Parser Syn.Wf Syn.StrictProfile Rt.TokRound Rt.TokRoundEx Rt.LexLink Rt.StrictEmit.
+From OV Require Import Base.Strs Syn.Escape Syn.Quote Syn.Ast Syn.Emitter Lex.Lexer Syn.Parser Syn.Wf Syn.StrictProfile Rt.TokRound Rt.TokRoundEx Rt.LexLink Rt.StrictEmit Rt.TokRound2 Rt.TokRound2Ex.
 Require Import ExtrOcamlBasic.
 
 Definition cls_of (tbl : list (N * N)) (c : N) : N :=
@@ -20,6 +20,9 @@ Definition core_shape_tbl (tbl : list (N * N)) (d : doc) (lines : list (str * st
 Definition theorem_domains (d : doc) : N :=
   ((if core_doc d then 1 else 0) + (if lex_safe_doc d then 2 else 0) + (if strict_safe_doc d then 4 else 0))%N.
 
+Definition core2_shape_tbl (tbl : list (N * N)) (d : doc) (lines : list (str * str)) : N :=
+  core2_shape_check (cls_of tbl) d lines.
+
 Extraction "../ocaml/gen/syn.ml" extract_anchor tokenize_tbl tkind_code escape unescape escape_opt unescape_opt escape_safe
   needs_quotes emit_str always_quote_key match_identifier match_annotation match_expression match_variable reserved_prefix scalar_class
-  emit emit_value parse_tbl doc_clauses strict_profile core_shape_tbl theorem_domains.
+  emit emit_value parse_tbl doc_clauses strict_profile core_shape_tbl theorem_domains core2_shape_tbl.
